@@ -57,6 +57,9 @@ func objectRuleToASTNode(r schema.RuleASTNode) schema.ASTNode {
 		})
 	}
 
+	// An alternative has no example value that "const" could pin.
+	a.Rules.Delete("const")
+
 	if typeRule, ok := r.Properties.Get("type"); ok { // or: [ { type: ...} ]
 		a = stringRuleToASTNodeType(a, typeRule.Value)
 	}
